@@ -1297,3 +1297,16 @@ Lemma writers_exact :
      [(s2z "protocol:Connection._ping", s2z "arm");
       (s2z "protocol:Connection.ping_ack_process", s2z "none")]) ].
 Proof. vm_compute. reflexivity. Qed.
+
+(* every DATA / HEADERS frame handed to h2 is followed by the counter reset -- per frame (chunk), not
+   per message: in each of the three Stream methods every h2 call is directly followed by the hook *)
+Definition site_ok (x : list Z * list Z * Z * Z) : bool :=
+  match x with (_, _, calls, followed) => (1 <=? calls) && (calls =? followed) end.
+
+Lemma every_frame_resets :
+  forallb site_ok send_sites = true /\
+  map (fun x => match x with (f, h, _, _) => (f, h) end) send_sites =
+  [(s2z "Stream.send_data", s2z "data_send_process");
+   (s2z "Stream.send_headers", s2z "headers_send_process");
+   (s2z "Stream.send_request", s2z "headers_send_process")].
+Proof. vm_compute. split; reflexivity. Qed.
